@@ -108,19 +108,32 @@ def check_ts_machinery(P, R, rid, per_instance=True):
     """the decorator itself: listed names become properties over a threading.local reached through the instance"""
     w = P.func(f'{CH}:ts_props.wrapper')
     iw = P.func(f'{CH}:ts_props.wrapper.init_wrapper')
-    mp = P.func(f'{CH}:ts_props.wrapper.make_prop')
+    # the property factory, by role: the function of this module that returns property(<three of its own nested functions>, ...)
+    mp, acc_names = None, None
+    for cand in P.module(CH).functions.values():
+        if isinstance(cand.node, ast.Lambda):
+            continue
+        for r_ in walk_shallow(cand.node):
+            if isinstance(r_, ast.Return) and isinstance(r_.value, ast.Call) and dotted(r_.value.func) == 'property' and len(r_.value.args) >= 3 \
+                    and all(isinstance(a_, ast.Name) for a_ in r_.value.args[:3]):
+                nested = {x.name for x in P.all_funcs() if x.parent is cand}
+                if all(a_.id in nested for a_ in r_.value.args[:3]):
+                    mp, acc_names = cand, [a_.id for a_ in r_.value.args[:3]]
+    R.require(mp is not None, 'ts_props: the function that builds property(fget, fset, fdel) from nested accessors was not found')
     # every listed prop is turned into a property
     made = [c for c in ast.walk(w.node) if isinstance(c, ast.Call) and dotted(c.func) == 'setattr' and len(c.args) == 3
-            and isinstance(c.args[2], ast.Call) and dotted(c.args[2].func) == 'make_prop']
+            and isinstance(c.args[2], ast.Call) and dotted(c.args[2].func) == mp.name]
     ok = bool(made) and any(isinstance(x, (ast.ListComp, ast.For)) and 'props' in src(x) for x in ast.walk(w.node))
     R.ob(rid, w, made[0] if made else w.node, ok, text='setattr(cls, p, make_prop(p)) for p in props', detail='' if ok else
          'the decorator does not replace every listed attribute by a thread-local property')
     # accessors reach the store through the instance
     tsp = P.func(f'{CH}:ts_props')
     store_param = tsp.node.args.kwonlyargs[0].arg if tsp.node.args.kwonlyargs else 'store_name'
-    key_param = mp.params[0] if mp.params else 'k'
-    for name in ('fget', 'fset', 'fdel'):
-        a = P.func(f'{CH}:ts_props.wrapper.make_prop.{name}')
+    key_param = mp.params[-1] if mp.params else 'k'
+    if len(mp.params) == 2:
+        store_param = mp.params[0]      # the store name handed to a module-level factory
+    for name, an_ in zip(('fget', 'fset', 'fdel'), acc_names):
+        a = next(x for x in P.all_funcs() if x.parent is mp and x.name == an_)
         sp = a.params[0]
         inner = [c for c in ast.walk(a.node) if isinstance(c, ast.Call) and dotted(c.func) == 'getattr' and len(c.args) >= 2
                  and isinstance(c.args[0], ast.Name) and c.args[0].id == sp and src(c.args[1]) == store_param]
